@@ -183,40 +183,103 @@ func drawFragment(c *Chooser, style int, data []byte, off int) int {
 	return n
 }
 
-// RunStream is one run of E2.
+type streamCfg struct {
+	gmp, capRes, reuseMode, capReuse, frag int
+	faultAt                                int
+	faultErr                               error
+	faultWithData, eofWithData             bool
+	chunkPol, consPol                      int
+}
+
+// RunStream is one run of E2: one drawn stream and configuration; with a drawn probability the reader fault is
+// injected at *every* byte offset of a short stream (exhaustive over offsets for that stream and configuration).
 func RunStream(r *Run) {
 	c := r.C
-	stream, want, desc := genStream(r)
+	huge := r.thorough() && c.Intn("hugestream", 60) == 0
+	var stream []byte
+	var want []*MV
+	var desc string
+	if huge {
+		stream, want, desc = genHugeStream(r)
+	} else {
+		stream, want, desc = genStream(r)
+	}
 	r.Res.Inputs["stream"] = b64(stream)
-	gmp := []int{1, 2, 3, 4, 8, 16}[c.Intn("gomaxprocs", 6)]
-	capRes := c.Intn("capres", 17)
-	reuseMode := c.Intn("reusemode", 3) // 0 no channel, 1 recycle always, 2 recycle randomly
-	capReuse := c.Intn("capreuse", 11)
-	frag := c.Intn("frag", fragCount)
-	if len(stream) > 4000 && frag <= fragThree {
-		frag = fragLine + c.Intn("fragbig", 5)
+	sc := streamCfg{faultAt: -1}
+	sc.gmp = []int{1, 2, 3, 4, 8, 16}[c.Intn("gomaxprocs", 6)]
+	sc.capRes = c.Intn("capres", 17)
+	sc.reuseMode = c.Intn("reusemode", 3) // 0 no channel, 1 recycle always, 2 recycle randomly
+	sc.capReuse = c.Intn("capreuse", 11)
+	sc.frag = c.Intn("frag", fragCount)
+	if len(stream) > 4000 && sc.frag <= fragThree {
+		sc.frag = fragLine + c.Intn("fragbig", 5)
+	}
+	if huge {
+		sc.frag = []int{fragAll, fragGeo, fragLine}[c.Intn("fraghuge", 3)]
 	}
 	// fault plan
-	faultAt := -1
-	var faultErr error
-	faultWithData := false
 	if c.Intn("fault", 3) == 0 {
-		faultAt = c.Intn("faultat", len(stream)+1)
+		sc.faultAt = c.Intn("faultat", len(stream)+1)
 		if c.Intn("faulterr", 2) == 0 {
-			faultErr = &errInjected{1}
+			sc.faultErr = &errInjected{1}
 		} else {
-			faultErr = io.ErrUnexpectedEOF
+			sc.faultErr = io.ErrUnexpectedEOF
 		}
-		faultWithData = c.Intn("faultdata", 2) == 1
+		sc.faultWithData = c.Intn("faultdata", 2) == 1
 	}
-	eofWithData := c.Intn("eofdata", 2) == 1
-	chunkPol := c.Intn("chunkpol", 3) // 0 FIFO, 1 LIFO, 2 random
-	consPol := c.Intn("conspol", 3)   // 0 eager, 1 lazy, 2 random
+	sc.eofWithData = c.Intn("eofdata", 2) == 1
+	sc.chunkPol = c.Intn("chunkpol", 3) // 0 FIFO, 1 LIFO, 2 random
+	sc.consPol = c.Intn("conspol", 3)   // 0 eager, 1 lazy, 2 random
 	if *flagMode == "kernel-avx2" {
 		setKernel(false)
 	} else {
 		setKernel(c.Intn("avx512", 2) == 1)
 	}
+	limit := 48
+	if r.thorough() {
+		limit = 512
+	}
+	if sc.faultAt >= 0 && len(stream) > 0 && len(stream) <= limit && c.Intn("everyoffset", 4) == 0 {
+		// reader error at every byte offset of this stream
+		for k := 0; k <= len(stream) && !r.failed() && r.Res.Harness == ""; k++ {
+			sc.faultAt = k
+			streamExec(r, stream, want, desc, sc)
+		}
+		r.Res.Exhaustive = true
+		r.stat("streams_with_fault_at_every_offset", 1)
+		return
+	}
+	streamExec(r, stream, want, desc, sc)
+}
+
+// genHugeStream builds a stream above the 10 MiB chunk size by repeating a drawn block of lines.
+func genHugeStream(r *Run) (stream []byte, docs []*MV, desc string) {
+	block, bdocs, _ := genStream(r)
+	for len(bdocs) == 0 || len(block) < 200 {
+		block, bdocs, _ = genStream(r)
+	}
+	if block[len(block)-1] != '\n' {
+		block = append(block, '\n')
+	}
+	target := 10<<20 + r.C.Intn("hugeextra", 2<<20)
+	var buf bytes.Buffer
+	n := 0
+	for buf.Len() < target {
+		buf.Write(block)
+		n++
+	}
+	for i := 0; i < n; i++ {
+		docs = append(docs, bdocs...)
+	}
+	return buf.Bytes(), docs, fmt.Sprintf("huge: %d x block of %d bytes = %d bytes", n, len(block), buf.Len())
+}
+
+// streamExec is one simulated execution of ParseNDStream.
+func streamExec(r *Run, stream []byte, want []*MV, desc string, sc streamCfg) {
+	c := r.C
+	gmp, capRes, reuseMode, capReuse, frag := sc.gmp, sc.capRes, sc.reuseMode, sc.capReuse, sc.frag
+	faultAt, faultErr, faultWithData, eofWithData := sc.faultAt, sc.faultErr, sc.faultWithData, sc.eofWithData
+	chunkPol, consPol := sc.chunkPol, sc.consPol
 	r.Res.Sample["stream"] = desc
 	r.Res.Sample["cfg"] = fmt.Sprintf("GOMAXPROCS=%d cap(res)=%d reuse=%d/%d frag=%s fault@%d(%v,data=%v) eofWithData=%v chunks=%d consumer=%d",
 		gmp, capRes, reuseMode, capReuse, fragNames[frag], faultAt, faultErr, faultWithData, eofWithData, chunkPol, consPol)
